@@ -555,7 +555,23 @@ def r10(ctx):
         ctx.missing(P, "C02.R10", "Hypercore::new: Bitfield::update in the replay loop", "no instance of the hint clause for Hypercore::new")
 
 
-RULES = [r1, r2, r3, r4, r5, r6, r7, r8, r8b, r8c, r9, r10]
+def r11(ctx):
+    """what is replayed after a crash is what was done: the entry an append or a clear logs describes exactly the range the call applied in memory (bitfield update = [ancestors, + batch length), drop entry = [start, end)) — otherwise the recovered state is neither the state before nor after the call (the placement clauses of C01.R4)"""
+    from . import c01
+    before = len(ctx.insts)
+    c01.r4(ctx)
+    kept = []
+    for i in ctx.insts[before:]:
+        if True:
+            i.prop, i.rule = P, "C02.R11"
+            i.key = i.key.replace("C01|C01.R4", "C02|C02.R11")
+            kept.append(i)
+    ctx.insts[before:] = kept
+    if not kept:
+        ctx.missing(P, "C02.R11", "shared clauses of c01.r4", "no instance")
+
+
+RULES = [r1, r2, r3, r4, r5, r6, r7, r8, r8b, r8c, r9, r10, r11]
 
 EXPLANATION = ("C02 (crash recovers to before-or-after): decides the write-ahead ordering premises on the CFG of every mutating entry point — "
                "data write before oplog entry, entry write ?-checked before any in-memory commit, commits before the periodic flush (append R1, proof apply R2), "
